@@ -9,7 +9,12 @@ numpy, dict_wh) x events given as path / generator / list x
 temporary_directory given or defaulted (TMPDIR redirected to a private
 directory) x success and every injected failure of C05 (repeated cue, malformed
 line, truncated gzip, missing vector, unusable parameter, every storage byte
-budget): directory listings of both temp roots before/after and sha256 of the
+budget) and failures of the learning stage itself, which are found only after
+counting and after the chunk files exist (an unknown `method`, `method=
+'threading'` for the wh flavours, n_outcomes_per_job=0) or while `weights` is
+taken over (an array with one vector dimension too many / a bare ndarray for the
+wh flavours); verbose=True for a quarter of the calls: directory listings of
+both temp roots before/after and sha256 of the
 input file are compared with the model's always-clean prediction. partial: that
 the real bodies write only below their TemporaryDirectory is exactly what this
 run observes; rmtree/Pool.terminate behave as documented.
@@ -19,6 +24,36 @@ from common import rng
 
 TIMEOUT = 40
 WORKERS = 14
+
+
+def fault_kind(t):
+    kind = (t['fault'] or {'kind': 'none'})['kind']
+    if kind == 'bad_method':
+        kind += ':' + t['fault']['method']
+    if kind == 'bad_weights':
+        kind += ':' + t['fault']['shape']
+    return kind
+
+
+def judge(t, res):
+    """the property predicate on one observed call: a description of the violation, or None"""
+    got = res.get('outcome', res.get('err', '?'))
+    kind = fault_kind(t)
+    lo = res.get('leftovers')
+    if got in ('Timeout', 'WorkerDied', 'HarnessError'):
+        return 'call did not finish: %s %s' % (got, res.get('msg', ''))
+    if lo is None:
+        return 'no directory listing returned'
+    if lo['systmp'] or lo['giventmp']:
+        return 'after the call (%s, exit %s) the temp directories contain new entries: system temp %r, temporary_directory %r' % (
+            kind, got, lo['systmp'], lo['giventmp'])
+    if res.get('file_unchanged') is False:
+        return 'input event file is not byte-for-byte unchanged'
+    if got == 'Returned' and kind in ('bad_method:nope', 'per_job_zero', 'bad_weights:extra_vector_dim', 'bad_weights:ndarray'):
+        # (method='threading' is a documented value of wh.wh that is not implemented today: only the
+        # listings are required there)
+        return 'a call that cannot be carried out (%s) returned weights' % kind
+    return None
 
 
 def run(rep, pool, driver, tier):
@@ -51,9 +86,24 @@ def run(rep, pool, driver, tier):
                     faults.append({'kind': 'bad_param', 'which': which, 'value': r.choice(['str', 'none'])})
                     if learner in run_C05.PATH_CONV:
                         faults.append({'kind': 'storage', 'budget': r.choice([0, 11, 12, 20, 31, 40, 47, 60])})
+                    # failures of the learning stage (audit C17-1).  What the unchanged code does (probed):
+                    # method='nope' -> ValueError, for ndl.ndl / wh binary-real / real-binary only after the chunk
+                    # files were written; method='threading' -> ValueError('TODO ...') for every wh flavour, after
+                    # the chunk files; n_outcomes_per_job=0 -> ValueError (threading) / ZeroDivisionError (openmp
+                    # kernels), after the chunk files; weights with a vector dimension too many or a bare ndarray
+                    # -> ValueError before anything is written.  Required here: the call ends and leaves nothing.
+                    stage = []
+                    if learner not in ('dict_ndl', 'dict_wh'):
+                        stage.append({'kind': 'bad_method', 'method': 'nope'})
+                    if learner.startswith('wh_'):
+                        stage.append({'kind': 'bad_method', 'method': 'threading'})
+                        stage.append({'kind': 'bad_weights', 'shape': r.choice(['extra_vector_dim', 'ndarray'])})
+                    if learner in run_C05.PATH_CONV:
+                        stage.append({'kind': 'per_job_zero'})
+                    faults += stage
                     if quick:
-                        must = [f for f in faults[1:] if f['kind'].startswith('gen_')]
-                        rest = [f for f in faults[1:] if not f['kind'].startswith('gen_')]
+                        must = [f for f in faults[1:] if f['kind'].startswith('gen_')] + (r.sample(stage, 1) if stage else [])
+                        rest = [f for f in faults[1:] if not f['kind'].startswith('gen_') and f not in must]
                         faults = [None] + must + r.sample(rest, min(2, len(rest)))
                     for f in faults:
                         es2 = es
@@ -63,30 +113,40 @@ def run(rep, pool, driver, tier):
                         if f and f['kind'] == 'truncated_gz':
                             es2 = es * 3
                         tasks.append(dict(cfg, events=es2, fault=f))
+    # X1: verbose=True for a quarter of the calls (a stream of its own: the tasks above are what they were)
+    rv = rng('C17/verbose')
+    for t in tasks:
+        if rv.random() < 0.25:
+            t['verbose'] = True
     impls = pool.map(tasks)
+    n_shrunk = 0
     for t, res in zip(tasks, impls):
         got = res.get('outcome', res.get('err', '?'))
-        kind = (t['fault'] or {'kind': 'none'})['kind']
+        kind = fault_kind(t)
+        rep.count('verbose:%s' % bool(t.get('verbose')))
+        if kind.split(':')[0] in ('bad_method', 'per_job_zero', 'bad_weights'):
+            rep.count('learning_stage_fault_exit:%s:%s' % (kind, got))
         rep.case({'learner': t['learner'], 'form': t['form'], 'given_tmp': t['given_tmp'], 'fault': t['fault'], 'events': t['events']},
                  nontrivial=True, stream='%s/%s' % (t['form'], 'given_tmp' if t['given_tmp'] else 'default_tmp'))
         rep.count('fault:' + kind)
         rep.count('exit:' + ('returned' if got == 'Returned' else 'raised' if got.startswith('Raised') else got))
         rep.count('learner:' + t['learner'])
         lo = res.get('leftovers')
-        prob = None
-        if got in ('Timeout', 'WorkerDied', 'HarnessError'):
-            prob = 'call did not finish: %s %s' % (got, res.get('msg', ''))
-        elif lo is None:
-            prob = 'no directory listing returned'
-        elif lo['systmp'] or lo['giventmp']:
-            prob = 'after the call (%s, exit %s) the temp directories contain new entries: system temp %r, temporary_directory %r' % (
-                kind, got, lo['systmp'], lo['giventmp'])
-        elif res.get('file_unchanged') is False:
-            prob = 'input event file is not byte-for-byte unchanged'
+        prob = judge(t, res)
         if prob:
+            steps = 0
+            if n_shrunk < 3:
+                # the first three violations are shrunk (events dropped, configuration simplified)
+                n_shrunk += 1
+                t, steps = run_C05.shrink(pool, t, 'storage' if kind == 'storage' else kind, lambda c, x: judge(c, x) is not None,
+                                          rounds=3 if got in ('Timeout', 'WorkerDied') else 8)   # a hanging variant costs 15 s
+                if steps:
+                    res = pool.map([t])[0]
+                    prob = judge(t, res) or prob
             rep.violation({'what': prob, 'input': t, 'observed': {k: res.get(k) for k in ('outcome', 'cls', 'msg', 'leftovers', 'file_unchanged')},
                            'expected': 'no new entry in either temp root; input file unchanged',
-                           'theorem_or_stream': 'C17 fs_clean: %s, events as %s, fault %s' % (t['learner'], t['form'], kind)})
+                           'theorem_or_stream': 'C17 fs_clean: %s, events as %s, fault %s' % (t['learner'], t['form'], kind),
+                           'python': run_C05.snippet(t), 'shrink_steps': steps})
         else:
             rep.sample({'learner': t['learner'], 'form': t['form'], 'given_tmp': t['given_tmp'], 'fault': t['fault'], 'exit': got,
                         'leftovers': lo}, limit=6)
